@@ -39,7 +39,14 @@ func sqlCases(rng *rand.Rand, n int, prefix string) []*synth.Case {
 	o.Structs = 5
 	o.Unions = 2
 	cases := genCases(rng, n, prefix, o)
-	cases = append(cases, synth.HandWritten()...)
+	for _, c := range synth.HandWritten() {
+		// a struct with two columns of one name (an outer field and a promoted field of the same
+		// Go name) is no table a database can implement: outside the SQL properties' quantifier
+		if c.HasFeat("hand:outer-field-with-the-go-name-of-a-promoted-field") {
+			continue
+		}
+		cases = append(cases, c)
+	}
 	return cases
 }
 
